@@ -153,6 +153,23 @@ pub fn verify_oracle(
     if answer { Ok(()) } else { Err(SignatureError::new()) }
 }
 
+pub static mut NONSTRICT_N: usize = 0;
+/// Stub for dalek's *non-strict* `Verifier::verify` of `VerifyingKey`: iroh must not use it
+/// (it accepts small-order keys and non-canonical encodings). Nondeterministic verdict; counts calls.
+pub fn nonstrict_verify_oracle(
+    _this: &ed25519_dalek::VerifyingKey,
+    _message: &[u8],
+    _signature: &ed25519_dalek::Signature,
+) -> Result<(), ed25519_dalek::SignatureError> {
+    unsafe {
+        NONSTRICT_N += 1;
+    }
+    if kani::any() { Ok(()) } else { Err(ed25519_dalek::SignatureError::new()) }
+}
+pub fn nonstrict_queries() -> usize {
+    unsafe { NONSTRICT_N }
+}
+
 pub fn sig_queries() -> usize {
     unsafe { SIG_N }
 }
